@@ -21,6 +21,8 @@ import (
 	"github.com/nspcc-dev/neo-go/pkg/io"
 	"github.com/nspcc-dev/neo-go/pkg/neotest"
 	"github.com/nspcc-dev/neo-go/pkg/smartcontract"
+	"github.com/nspcc-dev/neo-go/pkg/smartcontract/scparser"
+	"github.com/nspcc-dev/neo-go/pkg/vm/emit"
 	"github.com/nspcc-dev/neo-go/pkg/wallet"
 	"go.uber.org/zap"
 )
@@ -189,4 +191,65 @@ func DecodeBlock(raw []byte, stateRootInHeader bool) (*block.Block, error) {
 		return nil, r.Err
 	}
 	return b, nil
+}
+
+// WitnessVariant returns a copy of tx in which one multisignature witness is made by ANOTHER subset of the keys this
+// package knows (committee-i, acct-i): the same transaction (same hash) as it can legitimately circulate with two
+// different valid witnesses. ok is false if no witness of tx has a second signer subset.
+func WitnessVariant(tx *transaction.Transaction, magic netmode.Magic) (*transaction.Transaction, bool) {
+	known := map[string]*keys.PrivateKey{}
+	for i := 0; i < 16; i++ {
+		for _, l := range []string{"committee-%d", "acct-%d"} {
+			k := Key(fmt.Sprintf(l, i))
+			known[string(k.PublicKey().Bytes())] = k
+		}
+	}
+	for wi := range tx.Scripts {
+		m, pubs, ok := scparser.ParseMultiSigContract(tx.Scripts[wi].VerificationScript)
+		if !ok || m >= len(pubs) {
+			continue
+		}
+		// which keys signed the original: count PUSHDATA1 signatures and try the LAST m available keys instead of the first m
+		var have []int
+		for i, p := range pubs {
+			if _, ok := known[string(p)]; ok {
+				have = append(have, i)
+			}
+		}
+		if len(have) <= m {
+			continue
+		}
+		c := *tx
+		c.Scripts = slices.Clone(tx.Scripts)
+		sel := have[len(have)-m:]
+		bw := io.NewBufBinWriter()
+		for _, i := range sel {
+			sig := known[string(pubs[i])].SignHashable(uint32(magic), tx)
+			emit.Bytes(bw.BinWriter, sig)
+		}
+		inv := bw.Bytes()
+		if string(inv) == string(tx.Scripts[wi].InvocationScript) {
+			// the original was made by exactly this subset: take the first m instead
+			bw.Reset()
+			for _, i := range have[:m] {
+				emit.Bytes(bw.BinWriter, known[string(pubs[i])].SignHashable(uint32(magic), tx))
+			}
+			inv = bw.Bytes()
+			if string(inv) == string(tx.Scripts[wi].InvocationScript) {
+				continue
+			}
+		}
+		c.Scripts[wi] = transaction.Witness{InvocationScript: inv, VerificationScript: tx.Scripts[wi].VerificationScript}
+		raw, err := testserdes(&c)
+		if err != nil {
+			continue
+		}
+		return raw, true
+	}
+	return nil, false
+}
+
+// testserdes passes a transaction through its wire form (fresh object, nothing cached).
+func testserdes(tx *transaction.Transaction) (*transaction.Transaction, error) {
+	return transaction.NewTransactionFromBytes(tx.Bytes())
 }
